@@ -27,7 +27,8 @@ ASSUMPTIONS = ["the scanner's notion of measure/row (split on '&', ',', lines) i
 MONITORS = ["readback", "structure", "fixed_point"]
 REQUIRED = ["mixed_denominators", "skipped_measure", "player0_absent", "two_players_absent", "empty_stream",
             "off_grid_beat", "from_text", "corpus_chart", "denominators_share_factor", "stream_given_as_notedata",
-            "beats_alike_to_three_decimals", "denominator_above_a_million", "columns_passed_by_keyword"]
+            "beats_alike_to_three_decimals", "denominator_above_a_million", "columns_passed_by_keyword", "stream_production_encodes_other_note_data_meanwhile",
+            "callers_list_reused_after_the_call"]
 
 
 def anchors():
@@ -122,6 +123,24 @@ def check(ctx, case):
             nd = api_call(ctx, "from_notes(notes=, columns=)", NoteData.from_notes, notes=tuple(stream), columns=columns)
         else:
             nd = NoteData.from_notes(iter(stream), columns)
+    # (a) the stream is a lazy iterable whose production itself encodes other note data part-way through;
+    # (b) the stream is a list the caller goes on using (cleared, refilled) after the call
+    if stream and ctx.evaluations % 4 == 0:
+        def lazy():
+            for i, n in enumerate(stream):
+                if i == len(stream) // 2:
+                    NoteData.from_notes([Note(Beat(1), 0, NoteType.MINE), Note(Beat(9, 2), 0, NoteType.TAP)], 1)
+                yield n
+
+        nd = NoteData.from_notes(lazy(), columns)
+        ctx.feat("stream_production_encodes_other_note_data_meanwhile")
+    elif stream and ctx.evaluations % 4 == 1:
+        buf = list(stream)
+        nd = NoteData.from_notes(buf, columns)
+        buf.clear()
+        buf.extend([Note(Beat(0), 0, NoteType.MINE)] * 3)
+        buf.append(Note(Beat(100), 0, NoteType.TAP))
+        ctx.feat("callers_list_reused_after_the_call")
     text = str(nd)
     it = iter(nd)
     head = [n for _, n in zip(range(ctx.evaluations % 3), it)]
